@@ -569,3 +569,42 @@ def c18(rec):
     if init and any(ev[0] == "init" and ev[2] != "I" and ev[2] != "I2" for ev in rec.log):
         out.append(dict(signature=f"C18:initargs-wrong|cause={c}", msg=f"{rec.log[:6]}"))
     return out, _cls(rec) + (len(inited),)
+
+
+# ---- C13 (simulation part): tracker messages vs the simulated semaphore namespace ----------
+def c13(rec):
+    v, _ = O.termination(rec)
+    out = []
+    c = O.cause(rec)
+    reg, unreg = {}, {}
+    for (cmd, name, rtype, proc) in rec.tracker_log:
+        if rtype != "semlock":
+            continue
+        if proc != "parent":
+            out.append(dict(signature=f"C13:worker-side-{cmd.lower()}|cause={c}",
+                            msg=f"{proc} sent {cmd} for {name}: only the creating process "
+                                f"tracks a semaphore (an unpickled copy must not)"))
+            break
+        if cmd == "REGISTER":
+            reg[name] = reg.get(name, 0) + 1
+        elif cmd == "UNREGISTER":
+            unreg[name] = unreg.get(name, 0) + 1
+            if name not in reg:
+                out.append(dict(signature=f"C13:unregister-before-register|cause={c}", msg=name))
+    dup = [n for n, k in reg.items() if k != 1]
+    if dup:
+        out.append(dict(signature=f"C13:registered-{reg[dup[0]]}-times|cause={c}",
+                        msg=f"semaphores registered more than once: {dup[:3]}"))
+    if reg and len(reg) != rec.sems_created:
+        out.append(dict(signature=f"C13:created-but-not-registered|cause={c}",
+                        msg=f"{rec.sems_created} named semaphores created, {len(reg)} registered"))
+    if not v and rec.exit_done:
+        if rec.sem_names:
+            out.append(dict(signature=f"C13:semaphore-outlives-exit:{len(rec.sem_names)}|cause={c}",
+                            msg=f"still linked after the interpreter exit: {rec.sem_names[:4]}"))
+        pending = [n for n in reg if unreg.get(n, 0) == 0]
+        if pending:
+            out.append(dict(signature=f"C13:false-leak-report:{len(pending)}|cause={c}",
+                            msg=f"the tracker still counts {pending[:4]} at end of life although "
+                                f"the interpreter exit ran every finalizer"))
+    return out, _cls(rec) + (len(reg),)
